@@ -31,10 +31,50 @@ def driver_loop(cyc):
     return None
 
 
+def gating_each_edge(ctx, facts):
+    """on every path of the edge routine on which a domain is clocked, the enable of the drivers is read at that edge
+    (directly or through a helper called on that path) - a gating decision taken once per clk() call is stale"""
+    from ..callgraph import closure, resolve_call
+    sim = facts.cls('Simulator', SIM)
+    cyc = facts.lookup(sim, '_clk_cycle')
+    where = '%s:Simulator._clk_cycle' % SIM
+    if cyc is None:
+        return
+
+    def reads_enable(node):
+        if any(isinstance(x, ast.Attribute) and x.attr == 'enable' for x in ast.walk(node)):
+            return True
+        for c in ast.walk(node):
+            if isinstance(c, ast.Call):
+                for cc, ff in resolve_call(facts, sim, cyc, c):
+                    for c2, f2 in closure(facts, cc, ff, stop=lambda k, f: f.name in ('clock', 'clockAll')):
+                        if f2.name in ('clock', 'clockAll'):
+                            continue
+                        if any(isinstance(x, ast.Attribute) and x.attr == 'enable' for x in ast.walk(f2)):
+                            return True
+        return False
+    bad = False
+    for evs, ex in fn_paths(cyc):
+        K = calls_on_path(evs, lambda c: is_call_to(c, 'clockAll'))
+        if not K:
+            continue
+        R = [i for i, e in enumerate(evs) if e.kind in ('branch', 'stmt') and reads_enable(e.node)]
+        if not R or min(R) > min(K):
+            bad = True
+            conds = [(norm(e.node), e.val) for e in evs if e.kind == 'branch'][:3]
+            ctx.violation('C10.a', 'gating-evaluated-every-edge', 'a path of the edge routine clocks a domain without reading the drivers\' enables at that edge (conditions %s): the gating decision is taken elsewhere, once per clk() call'
+                          % conds, where, witness=dict(history='clk(3) while the enable of a gated domain changes after the first edge'))
+            break
+    if not bad:
+        ctx.ok('C10.a', 'gating-evaluated-every-edge', 'every path that clocks a domain reads the enables at that edge')
+    return not bad
+
+
 def check_a(ctx, facts):
     sim = facts.cls('Simulator', SIM)
     cyc = facts.lookup(sim, '_clk_cycle')
     where = '%s:Simulator._clk_cycle' % SIM
+    gating_each_edge(ctx, facts)
     lp = driver_loop(cyc) if cyc else None
     if lp is None:
         ctx.error('C10.a', 'driver loop calling clockAll() not found in Simulator._clk_cycle')
